@@ -1,7 +1,7 @@
 #!/bin/bash
 # usage: tools/rerun_seeded.sh [parallelism]  - re-runs the quick tiers against every kept seeded change and refreshes meta.json
 set -u
-cd /verif
+cd "$(dirname "$0")/.."
 PAR="${1:-6}"
 one() {
   d="$1"; name=$(basename "$d")
